@@ -122,6 +122,11 @@ func (t *ParserTerm) preCheck(ctx *Context) bool {
 
 	case t.Type == ParserTermError:
 		t.Symbol = ctx.Grammar.ErrorTerminal
+
+	case t.Type == ParserTermSimple:
+		// Neither a name nor a literal: the term was written as ''.
+		ctx.Errs.Errorf(ctx.Position(t), "token literal cannot be empty")
+		return false
 	}
 
 	return true
